@@ -70,7 +70,7 @@ prop("C17", [_lazy("cli_fail", "rule_atom"), _lazy("cli_fail", "rule_exc1"), _la
 
 prop("C05", [_lazy("registry", "rule_reg12"), _lazy("registry", "rule_reg3"), _lazy("registry", "rule_reg4"),
              _lazy("registry", "rule_cmp1"), _lazy("registry", "rule_cmp2"), _lazy("cli_flow", "rule_reset1_merge"),
-             _lazy("registry", "rule_reg5")],
+             _lazy("registry", "rule_reg5"), _lazy("cli_flow", "rule_argfwd1")],
      "Static decision of: the registry mapping is written only by ModelRegistry, and every call that removes a "
      "model is, in the same loop iteration and unconditionally, followed by snapshot loops retargeting all pointers "
      "and re-parenting all child references to the one replacement, which is registered after the loop and built "
@@ -139,7 +139,7 @@ prop("C19", [_lazy("header", "rule_inj4"), _lazy("header", "rule_shape"), _lazy(
 prop("C16", [_lazy("cli_flow", "rule_optflow1"), _lazy("cli_flow", "rule_optflow2"), _lazy("cli_flow", "rule_optflow3"),
              _lazy("cli_flow", "rule_optflow4"), _lazy("cli_flow", "rule_stage_same"), _lazy("cli_flow", "rule_seq1"),
              _lazy("cli_fail", "rule_enc1"), _lazy("cli_flow", "rule_optflow6"), _lazy("cli_flow", "rule_path1"),
-             _lazy("cli_flow", "rule_reset1"), _lazy("cli_flow", "rule_regdeliv1")],
+             _lazy("cli_flow", "rule_reset1"), _lazy("cli_flow", "rule_regdeliv1"), _lazy("cli_flow", "rule_argfwd1")],
      "Static decision of: every add_argument destination is read from the namespace and nothing else is "
      "(OPTFLOW-1); each option's value flows (forward taint through Cli's methods, attribute cells, dict keys, "
      "called callables) to its documented library parameter, not into another option's slot, and no hop of that "
@@ -155,7 +155,7 @@ prop("C16", [_lazy("cli_flow", "rule_optflow1"), _lazy("cli_flow", "rule_optflow
 prop("C18", [_lazy("converters", "rule_tok1"), _lazy("converters", "rule_tok2"), _lazy("converters", "rule_tok3"),
              _lazy("converters", "rule_null1"), _lazy("state", "rule_glob1_converters"), _lazy("emit", "rule_sib1"),
              _lazy("layout", "rule_imp4"), _lazy("converters", "rule_conv_pure"), _lazy("converters", "rule_iter1"),
-             _lazy("naming", "rule_label2")],
+             _lazy("naming", "rule_label2"), _lazy("imports", "rule_imp5"), _lazy("emit", "rule_kw1")],
      "Static decision of: the path tokens and both separators emitted by the generator are the ones the post-init "
      "interpreter dispatches / splits on, and its type-argument index per container token matches the emitted "
      "annotation form (TOK-1); every IR class that rapid type analysis shows the inference pipeline can put in a "
@@ -193,7 +193,7 @@ prop("C11", [_lazy("emit", "rule_inj2"), _lazy("emit", "rule_inj5"), _lazy("emit
      "the names handed out and change the label; not decided: the string arithmetic of the suffixing); behaviour of "
      "inflection / unidecode on concrete strings")
 
-prop("C03", [_lazy("imports", "rule_imp1"), _lazy("imports", "rule_imp2"), _lazy("imports", "rule_shadow1"), _lazy("imports", "rule_shadow2"),
+prop("C03", [_lazy("imports", "rule_imp1"), _lazy("imports", "rule_imp2"), _lazy("imports", "rule_shadow1"), _lazy("imports", "rule_shadow2"), _lazy("imports", "rule_imp5"),
              _lazy("emit", "rule_label1"), _lazy("emit", "rule_dup1"), _lazy("emit", "rule_fwd1"),
              _lazy("emit", "rule_inj2"), _lazy("emit", "rule_inj3"), _lazy("emit", "rule_inj5"), _lazy("emit", "rule_sib1_layout"),
              _lazy("layout", "rule_lay1"), _lazy("layout", "rule_lay2"), _lazy("layout", "rule_imp4"),
@@ -213,7 +213,7 @@ prop("C03", [_lazy("imports", "rule_imp1"), _lazy("imports", "rule_imp2"), _lazy
 prop("C04", [_lazy("emit", "rule_sib1"), _lazy("emit", "rule_sib2"), _lazy("emit", "rule_inj2"), _lazy("emit", "rule_inj5"),
              _lazy("emit", "rule_lit"), _lazy("emit", "rule_tbl1"),
              _lazy("state", "rule_cache2"), _lazy("state", "rule_glob1_generators"), _lazy("state", "rule_pure1"),
-             _lazy("naming", "rule_nameord2"), _lazy("naming", "rule_optfwd1")],
+             _lazy("naming", "rule_nameord2"), _lazy("naming", "rule_optfwd1"), _lazy("emit", "rule_kw1")],
      "Static decision of: on every feasible path of each framework's field_data (path enumeration with a small "
      "abstract state for the kwargs dict) an optional list/dict/scalar field carries default list/dict/None to "
      "the emitted body and a required field carries none; the optional flag is the sort_fields group, decided by "
